@@ -18,6 +18,8 @@ CLAIMED.update({
  "C16": ("acquire/release must-pass path rules (response bodies, spooled files, goroutine join, ticker stop) + guarded-insertion rule on the limiter table + reactor entry/token pairing", _T, "DESIGN.md §3 C16"),
  "C04": ("tokenised SQL-constant state machine + must-pass recovery statement on every successful Init + transaction-object identity and commit-before-return in Get + loop-coverage of the stop-time reset + who-may-call on DeleteURL", _T, "DESIGN.md §3 C04"),
  "C15": ("return-guard analysis of the sender retry loops (only shutdown or success) + select-arm dominance of batch replacement + fresh-slice rule + writer/reader field-mapping agreement + embedded-schema and constraint-branch checks", _T, "DESIGN.md §3 C15"),
+ "C07": ("string-literal table extraction from goquery Find/Attr calls with def-use flow into the returned slice + guard allow-list per extraction site + exact-membership form of the disable test + loop-coverage of asset→child conversion", _T, "DESIGN.md §3 C07"),
+ "C10": ("reachability-scoped scan (scope S) of every index/slice/assertion/panic/loop: bounds discharge by dominating guards, loop bounds, Split and regexp capture-group facts; defer/recover containment of panic-prone decoders; loop-variable progress on every back edge", _T, "DESIGN.md §3 C10"),
 })
 _P = "check not built yet in this round; planned rules in DESIGN.md §3 — not claimed until the rule runs"
 NOT_APPLICABLE = {f"C{i:02d}": _P for i in range(1, 20)}
